@@ -219,13 +219,19 @@ where
 
             match stream.as_mut().poll_next(cx) {
                 // Received message from a client stream
-                Poll::Ready(Some((id, Ok(item)))) => {
-                    let mut payload = item.unwrap_message();
+                Poll::Ready(Some((id, Ok(Frame::Message(mut payload))))) => {
                     payload
                         .headers
                         .get_or_insert(HashMap::new())
                         .insert("cid".into(), format!("{id}"));
                     *buffered_req = Some(Frame::Message(payload));
+                }
+                // Anything but a message is not a request: ignore it
+                Poll::Ready(Some((_, Ok(frame)))) => {
+                    error!(
+                        "Received non-message frame (type {}) from requestor",
+                        frame.get_type()
+                    )
                 }
                 // Encountered an error whilst receiving a message from an inner stream
                 Poll::Ready(Some((_, Err(e)))) => {
